@@ -120,8 +120,14 @@ impl<T: Elem + SatisfyTraits<Tr>, M: MX, Tr: TrX + ?Sized> World<T, M, Tr> {
     pub fn do_clone(&mut self, then: u8, out: &mut Out) {
         let len = self.ma.len();
         let before = elem::with_reg(|r| { r.clone_src_n = 0; r.clones + r.zst_clones });
+        let serial0 = crate::track::with_ts(|ts| ts.next_serial());
         let a = &self.a;
         let r = guarded(|| Tr::clone_vec(a));
+        // the clone's elements are WRITTEN into its storage: the write accessor of that storage must have been asked for
+        if matches!(M::KIND, crate::caps::BK::Track) && T::SIZE != 0 && len > 0 && r.is_ok() {
+            let n = crate::track::with_ts(|ts| ts.as_mut_since(serial0));
+            if n == 0 { out.fail(Class::Mem, "written-through-read-accessor", format!("clone() filled a new storage with {len} elements without ever calling its Mem::as_mut_ptr")); }
+        }
         // `Clone` runs on the source's elements themselves (a bitwise stand-in is not the element: interior state, address)
         if T::SIZE != 0 && len > 0 {
             let base = self.a.downcast_ref::<T>().unwrap().as_ptr() as usize;
